@@ -8,7 +8,8 @@
 (*     (decodeInternal, index) and tokenizer/{keyword,path,text}_tokenizer *)
 (*     incl. size limits, partial indexing, toLowerTryInplace;             *)
 (*   - a transcription of the query side: the SeqQL lexer for the four     *)
-(*     literal styles (parser/seqql.go: Next, unquotePrefix, raw strings,  *)
+(*     literal styles (parser/seqql.go: Next, unquotePrefix incl. the      *)
+(*     escape sequences of strconv.UnquoteChar, raw strings,               *)
 (*     composite bare tokens) and parser/seqql_filter.go: parseSeqQLKeyword*)
 (*     / parseSeqQLText, term matching as in pattern/pattern.go;           *)
 (*   - a REFERENCE definition, written on runes and independently of the   *)
@@ -49,13 +50,14 @@ vars == <<val, cfg>>
 \* ---------------------------------------------------------------- character classes
 \* class : width in bytes of its members : meaning               (palette: harness/cmd/tokenize/main.go)
 Classes == {"lo", "up", "dg", "us", "st", "sp", "dd", "sl", "dq", "sq", "bt", "bs",
-            "nl", "nu", "d2", "d3", "nd", "no", "ns", "iv", "l4", "u4", "n4", "s4"}
+            "nl", "nu", "d2", "d3", "nd", "no", "ns", "iv", "l4", "u4", "n4", "s4",
+            "cr", "lf", "ws", "z0", "cc", "pu"}
 W == [lo |-> 1,   \* ASCII lower-case letter
       up |-> 1,   \* ASCII upper-case letter
       dg |-> 1,   \* ASCII digit
       us |-> 1,   \* '_'
       st |-> 1,   \* '*'
-      sp |-> 1,   \* ASCII separator that needs quoting (space : , ( ) = @ # | [ ] ! tab newline ...)
+      sp |-> 1,   \* printable ASCII separator that needs quoting (space : , ( ) = @ # | [ ] ! ...)
       dd |-> 1,   \* '-' or '.'  (separators that are legal in an unquoted SeqQL token)
       sl |-> 1,   \* '/'
       dq |-> 1,   \* '"'
@@ -73,11 +75,23 @@ W == [lo |-> 1,   \* ASCII lower-case letter
       l4 |-> 4,   \* 4-byte (supplementary plane) letter, lower-case or without a lower-case mapping
       u4 |-> 4,   \* 4-byte upper-case letter; every such letter has a 4-byte lower case (Deseret, Osage, Adlam ...)
       n4 |-> 4,   \* 4-byte decimal digit (category Nd)
-      s4 |-> 4]   \* 4-byte rune that is neither letter nor number (emoji, musical symbols, tags)
+      s4 |-> 4,   \* 4-byte rune that is neither letter nor number (emoji, musical symbols, tags)
+      \* bytes of a value that the indexer takes verbatim while some spelling of a string literal (of Go, whose strconv the lexer
+      \* borrows, or of the lexer itself) gives them a meaning of their own - one class per reason, so that each of them meets
+      \* every literal style of every scope:
+      cr |-> 1,   \* carriage return: discarded from a raw string by the Go rules (strconv.Unquote of `...`); white space
+      lf |-> 1,   \* newline: not allowed inside a Go "..." / '...' literal (strconv.Unquote), ends a `#` comment; white space
+      ws |-> 1,   \* the other ASCII white space bytes tab, vertical tab, form feed (skipped BETWEEN lexemes, strings.TrimSpace)
+      z0 |-> 1,   \* the NUL byte
+      cc |-> 1,   \* every other control byte 0x01..0x08, 0x0E..0x1F, 0x7F (strconv.Quote escapes them, strict JSON rejects them raw)
+      pu |-> 3]   \* U+E000: the private-use rune the SeqQL lexer itself puts in place of an unescaped '*' (wildcardRune)
 Word   == {"lo", "up", "dg", "us", "st", "nl", "nu", "d2", "d3", "nd", "no", "l4", "u4", "n4"}   \* letters, numbers, '_', '*'
 Cased  == {"up", "nu", "d2", "d3", "no", "ns", "u4"}                           \* lower-casing may change the rune (some members)
 DiffW  == {"d2", "d3"}                                                         \* ... and its width
 BareOK == {"lo", "up", "dg", "us", "dd", "nl", "nu", "d2", "d3", "nd", "l4", "u4", "n4"}   \* isTokenRune or '-'
+Ctl    == {"cr", "lf", "ws", "z0", "cc"}                                       \* ASCII control bytes (unicode.IsControl)
+\* the members the palette must consist of (code points), for the classes that stand for one particular byte / rune
+CodePoint == [cr |-> 13, lf |-> 10, z0 |-> 0, pu |-> 57344]
 UTFMax == 4       \* utf8.UTFMax: no class is wider
 LookBack == UTFMax - 1   \* how far runeAlignedCut looks back for the lead byte (overridden in Tokenize_mut_lookback.cfg)
 ChOf   == [st |-> "*", sl |-> "/", dq |-> "\"", sq |-> "'", bt |-> "`", bs |-> "\\"]
@@ -86,7 +100,9 @@ Big    == 64      \* a limit no value of the scope reaches (stands for MaxTokenS
 
 ASSUME Alphabet \subseteq Classes
 ASSUME \A k \in Classes : W[k] \in 1..UTFMax
-ASSUME PrintT(<<"TABLE", ToJson([w |-> W, word |-> Word, cased |-> Cased, diffw |-> DiffW, bare |-> BareOK, ch |-> ChOf, big |-> Big])>>)
+ASSUME Ctl \subseteq Classes /\ Ctl \cap (Word \cup BareOK \cup Cased) = {} /\ \A k \in Ctl : W[k] = 1
+ASSUME PrintT(<<"TABLE", ToJson([w |-> W, word |-> Word, cased |-> Cased, diffw |-> DiffW, bare |-> BareOK, ch |-> ChOf, big |-> Big,
+                                 ctl |-> Ctl, cp |-> CodePoint])>>)
 
 \* ---------------------------------------------------------------- helpers
 RECURSIVE Concat(_)
@@ -297,13 +313,22 @@ TokensOf(idx, key) == {idx[i].a : i \in {j \in 1..Len(idx) : idx[j].key = key}}
 ExistsOf(idx) == {idx[i].lit : i \in {j \in 1..Len(idx) : idx[j].key = "_exists_"}}
 
 \* ---------------------------------------------------------------- query side: rendering of a literal (our own, emitted to the driver)
-\* a unit is a content atom or a meta character <<0, 0, ch>>
+\* a unit is a content atom, a meta character <<0, 0, ch>>, or the escape code <<e, 0, "c">> of character e: what strconv.UnquoteChar
+\* accepts behind a backslash as a spelling of that character (\r \n \t \a \b \f \v, \ooo, \xHH, \uHHHH, \UHHHHHHHH - letters and
+\* digits only, so a code never contains a quote, a backslash or '*'; the driver picks the spelling)
 Meta(ch) == <<0, 0, ch>>
 IsMeta(u) == u[1] = 0
+Code(a) == <<a[1], 0, "c">>
+IsCode(u) == u[1] # 0 /\ u[3] = "c"
 IsCh(u, ch) == IF IsMeta(u) THEN u[3] = ch
                ELSE (u[2] = 0 /\ u[3] = "r" /\ ACls(u) \in Fixed /\ ChOf[ACls(u)] = ch)
-Styles == <<"dq", "sq", "bq", "bare", "dqx">>
+Styles == <<"dq", "sq", "bq", "bare", "dqx", "dqe", "sqc">>
 Esc(q, a) == IF AValid(a) /\ a[3] = "r" /\ ACls(a) \in {q, "bs", "st"} THEN <<Meta("\\"), a>> ELSE <<a>>
+\* the escaped spellings: every character by its code (an invalid byte has none: \xFF denotes U+00FF) / the control bytes by
+\* their codes and the rest as in the plain style (what %q-like client code sends)
+IsRaw(a) == ~IsMeta(a) /\ AValid(a) /\ a[3] = "r"
+EscAll(a) == IF IsRaw(a) THEN <<Meta("\\"), Code(a)>> ELSE <<a>>
+EscCtl(q, a) == IF IsRaw(a) /\ ACls(a) \in Ctl THEN <<Meta("\\"), Code(a)>> ELSE Esc(q, a)
 Render(style, s) ==
   CASE style = "dq"   -> <<Meta("\"")>> \o Concat([i \in 1..Len(s) |-> Esc("dq", s[i])]) \o <<Meta("\"")>>
     [] style = "sq"   -> <<Meta("'")>> \o Concat([i \in 1..Len(s) |-> Esc("sq", s[i])]) \o <<Meta("'")>>
@@ -312,15 +337,21 @@ Render(style, s) ==
     \* what a client restricted to valid UTF-8 has to send: U+FFFD in place of every invalid byte
     [] style = "dqx"  -> <<Meta("\"")>> \o Concat([i \in 1..Len(s) |-> IF AValid(s[i]) THEN Esc("dq", s[i]) ELSE << <<s[i][1], s[i][2], "x">> >>])
                          \o <<Meta("\"")>>
+    [] style = "dqe"  -> <<Meta("\"")>> \o Concat([i \in 1..Len(s) |-> EscAll(s[i])]) \o <<Meta("\"")>>
+    [] style = "sqc"  -> <<Meta("'")>> \o Concat([i \in 1..Len(s) |-> EscCtl("sq", s[i])]) \o <<Meta("'")>>
 BareUnit(u) == ~IsMeta(u) /\ AValid(u) /\ u[3] = "r" /\ ACls(u) \in BareOK
 Admissible(style, s) ==
   CASE style = "bq"   -> \A i \in 1..Len(s) : ~IsCh(s[i], "`")
     [] style = "bare" -> s # <<>> /\ \A i \in 1..Len(s) : BareUnit(s[i])
     [] style = "dqx"  -> \E i \in 1..Len(s) : ~AValid(s[i])
+    [] style = "dqe"  -> \E i \in 1..Len(s) : IsRaw(s[i])
+    [] style = "sqc"  -> \E i \in 1..Len(s) : IsRaw(s[i]) /\ ACls(s[i]) \in Ctl
     [] OTHER          -> TRUE
 
 \* ---------------------------------------------------------------- query side: lexer (parser/seqql.go)
-WILD == <<0, 0, "*">>                   \* wildcardRune
+WILD == <<0, 0, "*">>                   \* wildcardRune as the lexer writes it into a token for an unescaped '*'
+\* ... and the same rune typed by the user (class pu, verbatim in any style or by its code): the parsers below cannot tell
+IsWild(u) == u = WILD \/ (u[1] # 0 /\ u[2] = 0 /\ u[3] = "r" /\ ACls(u) = "pu")
 NoLex == [ok |-> FALSE, items |-> <<>>, rest |-> <<>>]
 Lexed(items, rest) == [ok |-> TRUE, items |-> items, rest |-> rest]
 FirstIdx(q, from, ch) == LET C == {j \in from..Len(q) : IsCh(q[j], ch)} IN
@@ -331,11 +362,13 @@ Slow(q, i, acc, quote) ==
   IF i > Len(q) THEN NoLex
   ELSE IF IsCh(q[i], quote) THEN Lexed(acc, SubSeq(q, i + 1, Len(q)))
   ELSE IF IsCh(q[i], "\\") /\ i < Len(q) /\ IsCh(q[i + 1], "*") THEN Slow(q, i + 2, Append(acc, q[i + 1]), quote)   \* unquoteChar: \* -> '*'
+  ELSE IF IsCh(q[i], "\\") /\ i < Len(q) /\ IsCode(q[i + 1])                        \* strconv.UnquoteChar: \<code> -> the character,
+       THEN Slow(q, i + 2, Append(acc, <<q[i + 1][1], 0, "r">>), quote)               \* appended as a rune (utf8.AppendRune)
   ELSE IF IsCh(q[i], "*") THEN Slow(q, i + 1, Append(acc, WILD), quote)                                         \* unquoteChar: * -> wildcardRune
   ELSE IF IsCh(q[i], "\\")
        THEN (IF i < Len(q) /\ (IsCh(q[i + 1], "\\") \/ IsCh(q[i + 1], quote))                                    \* strconv.UnquoteChar: \\ and \<quote>
                THEN Slow(q, i + 2, Append(acc, q[i + 1]), quote)
-               ELSE NoLex)   \* other escapes and the keep-the-backslash error path are outside the model: Render never produces them
+               ELSE NoLex)   \* ill-formed escapes and the keep-the-backslash error path are outside the model: Render never produces them
   ELSE Slow(q, i + 1, Append(acc, IF AValid(q[i]) THEN q[i] ELSE <<q[i][1], q[i][2], "x">>), quote)              \* utf8.AppendRune(b, RuneError)
 \* unquotePrefix: the literal ends at the FIRST occurrence of the quote character unless it needs unquoting
 UnquotePrefix(q, quote) ==
@@ -345,7 +378,9 @@ UnquotePrefix(q, quote) ==
        IF ~\E i \in 1..Len(inner) : IsCh(inner[i], "\\") \/ IsCh(inner[i], "*")      \* needUnquote
          THEN Lexed(inner, SubSeq(q, end + 1, Len(q)))
          ELSE Slow(q, 2, <<>>, quote)
-\* strconv.QuotedPrefix for a raw string
+\* strconv.QuotedPrefix for a raw string: the text between the back quotes as it stands - every byte, control bytes included
+\* (QuotedPrefix returns the prefix still quoted and Next slices the quotes off; the VALUE of such a literal by the Go rules,
+\* strconv.Unquote, would be another one: RawPrefixGo below)
 RawPrefix(q) == LET end == FirstIdx(q, 2, "`") IN
                 IF Len(q) < 2 \/ end = 0 THEN NoLex ELSE Lexed(SubSeq(q, 2, end - 1), SubSeq(q, end + 1, Len(q)))
 \* lexer.Next + parseCompositeToken for unquoted text: token-rune runs and single '-' runes glue together while no
@@ -374,7 +409,7 @@ RECURSIVE PK(_, _, _, _)
 PK(items, i, buf, cs) ==
   LET flush == IF buf = <<>> THEN <<>> ELSE <<TextTerm(LowerUnless(cs, buf))>> IN
   IF i > Len(items) THEN flush
-  ELSE IF items[i] = WILD THEN flush \o <<WildTerm>> \o PK(items, i + 1, <<>>, cs)
+  ELSE IF IsWild(items[i]) THEN flush \o <<WildTerm>> \o PK(items, i + 1, <<>>, cs)
   ELSE PK(items, i + 1, Append(buf, Repl(items[i])), cs)
 ParseKeyword(items, cs) == IF items = <<>> THEN <<TextTerm(<<>>)>> ELSE PK(items, 1, <<>>, cs)
 \* parseSeqQLText -> sequence of literals, each a sequence of terms
@@ -383,7 +418,7 @@ PT(items, i, term, cur, cs) ==
   LET cur2 == IF term = <<>> THEN cur ELSE Append(cur, TextTerm(LowerUnless(cs, term)))
       done == IF cur2 = <<>> THEN <<>> ELSE <<cur2>>
   IN IF i > Len(items) THEN done
-     ELSE IF items[i] = WILD THEN PT(items, i + 1, <<>>, Append(cur2, WildTerm), cs)
+     ELSE IF IsWild(items[i]) THEN PT(items, i + 1, <<>>, Append(cur2, WildTerm), cs)
      ELSE IF AValid(items[i]) /\ items[i][3] = "r" /\ ACls(items[i]) \in Word THEN PT(items, i + 1, Append(term, items[i]), cur, cs)
      ELSE done \o PT(items, i + 1, <<>>, <<>>, cs)
 ParseText(items, cs) == LET r == IF items = <<>> THEN <<>> ELSE PT(items, 1, <<>>, <<>>, cs)
@@ -593,4 +628,10 @@ CheckAndEmit ==
 \* invariants are not vacuous).  Tokenize_mut_lookback.cfg: LookBack <- LookBackMut; Tokenize_mut_title.cfg: MainTitle <- MainTitleMut
 LookBackMut == UTFMax - 2
 MainTitleMut(fn, el) == el.name
+\* Tokenize_mut_rawcr.cfg: RawPrefix <- RawPrefixGo - the value of a raw literal by the Go rules (strconv.Unquote: carriage returns
+\* are discarded); Tokenize_mut_code.cfg: IsCode <- IsCodeMut - a lexer that knows no escape codes (takes the backslash literally)
+RawPrefixGo(q) == LET end == FirstIdx(q, 2, "`") IN
+                  IF Len(q) < 2 \/ end = 0 THEN NoLex
+                  ELSE Lexed(SelectSeq(SubSeq(q, 2, end - 1), LAMBDA u : IsMeta(u) \/ ACls(u) # "cr"), SubSeq(q, end + 1, Len(q)))
+IsCodeMut(u) == FALSE
 =============================================================================
